@@ -122,6 +122,8 @@ class Zones:
 
     def _table(self, key, centre, name=None):
         name = name or key
+        # the hypothesis `ZoneWord` of the zone theorems: no white space, does not start with a digit
+        assert name and not name[0].isdigit() and not any(ch.isspace() for ch in name), name
         if len(key) == 3 and key.lower() == "utc":
             return f"{name};0,0,UTC"
         tz = self.get(key)
